@@ -271,7 +271,7 @@ func (pf *Profile) genBlock(t *rapid.T) BlockSpec {
 		ns = rng(t, min(3, pf.MaxSeqs), pf.MaxSeqs, "nSeqsBig")
 	}
 	b.Concurrency = pick(t, []int{0, 1, 1, 2, 2, 3, ns + 1}, "conc")
-	b.Tolerated = pick(t, []int{0, 0, 0, 1, 1, 2, -1, ns}, "tol")
+	b.Tolerated = pick(t, []int{0, 0, 0, 0, 1, 1, 2, -1, -1, -2, -1000, -2147483648, ns}, "tol") // "a negative value allows all"
 	if pct(t, pf.PDelay, "delays") {
 		b.EntranceDelayUs = pick(t, []int{0, 1000}, "entrance")
 		b.ExitDelayUs = pick(t, []int{0, 1000}, "exit")
